@@ -10,10 +10,20 @@
 (*   ex_all, ex_test, ex_bench   extra reachability obligations taken from *)
 (*              the introspection files (corpus: build_by_default targets, *)
 (*              test executables / depends),                               *)
-(*   intended   (writer) the graph handed to the writer.                   *)
+(*   intended   (writer) the graph handed to the writer; (rspwriter) the   *)
+(*              abstract queue of statements, threshold and rsp-capable    *)
+(*              kinds of RuleFlavours_MC,                                  *)
+(*   rsp        (optional) [lo, hi, rspable]: the band of command-line     *)
+(*              lengths around the response-file threshold the manifest    *)
+(*              was written under and the rule kinds that have a           *)
+(*              response-file flavour,                                     *)
+(*   parts      (optional) the configuration of the conditional parts      *)
+(*              (ManifestParts: backend_max_links, b_coverage, tools on    *)
+(*              PATH, dot files, linker / compiler kinds, dependency       *)
+(*              style).                                                    *)
 (* The verdict names the first violated clause of the rule book.           *)
 (***************************************************************************)
-EXTENDS ProjectModel, TLC, Json, IOUtils
+EXTENDS ProjectModel, ManifestParts, TLC, Json, IOUtils
 
 Cases == JsonDeserialize(IOEnv.TRACE_FILE)
 
@@ -30,11 +40,63 @@ JudgeManifest(c, M, X) ==
          THEN V(c, "RulesDefined", Some({M.edges[e].rule : e \in UndefinedRuleEdges(M)}) \o M.dup_rules)
     ELSE IF ~PoolsDefined(M) THEN V(c, "PoolsDefined", Some({M.edge_pools[e] : e \in UndefinedPoolEdges(M)}))
     ELSE IF ~HasOutputs(M) THEN V(c, "HasOutputs", <<>>)
+    ELSE IF ~RspBound(M) THEN V(c, "RspBound", Some({M.edges[e].rule : e \in HalfBoundRspEdges(M)}))
+    ELSE IF ~RspUsed(M) THEN V(c, "RspUsed", Some({M.edges[e].rule : e \in UnusedRspEdges(M)}))
+    ELSE IF ~DepsConsistent(M)
+         THEN V(c, "DepsConsistent", Some({M.edges[e].rule : e \in BadDepsEdges(M) \cup NoDepfileEdges(M)}))
     ELSE IF ~UniqueProducer(M) THEN V(c, "UniqueProducer", Some(DuplicateOutputs(M)))
     ELSE IF ~Closed(M, X) THEN V(c, "Closed", Some(Dangling(M, X)))
     ELSE IF ~Buildable(M, X) THEN V(c, "Acyclic", Some(OutsOf(M, Stuck(M, X))))
     ELSE IF ~DefaultsKnown(M) THEN V(c, "DefaultsKnown", Some(UnknownDefaults(M)))
     ELSE V(c, "ok", <<>>)
+
+\* two-flavour rules (RuleFlavours): the `_RSP` flavour is the one with a response file, and a statement of an
+\* rsp-capable kind uses it iff its command line reaches the threshold (band [lo, hi) given with the case)
+NoRsp == [lo |-> 0, hi |-> 2147483647, rspable |-> <<>>]
+CRsp(c) == IF "rsp" \in DOMAIN c THEN c.rsp ELSE NoRsp
+JudgeFlavours(c, M) ==
+    LET r == CRsp(c)
+    IN IF ~FlavourBinds(M) THEN V(c, "FlavourBinds", Some({M.edges[e].rule : e \in MisboundFlavourEdges(M)}))
+       ELSE IF ~FlavourChoice(M, Rng(r.rspable), r.lo, r.hi)
+            THEN V(c, "FlavourChoice", Some({M.edges[e].rule : e \in WrongFlavourEdges(M, Rng(r.rspable), r.lo, r.hi)}))
+       ELSE V(c, "ok", <<>>)
+
+\* the conditional parts (ManifestParts) under the configuration given with the case
+NoParts == [max_links |-> 0, coverage |-> FALSE, tools |-> <<>>, dotfiles |-> <<>>, tools_known |-> FALSE,
+            options_known |-> FALSE, linkers |-> <<>>, compilers |-> <<>>, depstyle |-> "gcc"]
+CParts(c) == IF "parts" \in DOMAIN c THEN c.parts ELSE NoParts
+JudgeParts(c, M) ==
+    LET g == CParts(c)
+    IN IF MissingStandard(M) # {} THEN V(c, "StandardTargets", Some(MissingStandard(M)))
+       ELSE IF UnreachedNeeds(M) # {} THEN V(c, "CommandNeeds", Some({pr[1] : pr \in UnreachedNeeds(M)}))
+       ELSE IF RegenWrong(M) # {} THEN V(c, "RegenIsGenerator", Some(RegenWrong(M)))
+       ELSE IF LinkPoolWrong(M, g) # {} THEN V(c, "LinkPool", Some(LinkPoolWrong(M, g)))
+       ELSE IF CoverageWrong(M, g) # {} THEN V(c, "CoverageCleaners", Some(CoverageWrong(M, g)))
+       ELSE IF ToolTargetsWrong(M, g) # {} THEN V(c, "ToolTargets", Some(ToolTargetsWrong(M, g)))
+       ELSE IF CompilerDepsWrong(M, g) # {} THEN V(c, "CompilerDeps", Some(CompilerDepsWrong(M, g)))
+       ELSE IF ~DepfilesUnique(M) THEN V(c, "DepfilesUnique", Some(SharedDepfiles(M)))
+       ELSE IF ~FlavoursAgree(M) THEN V(c, "FlavoursAgree", Some(DisagreeingKinds(M)))
+       ELSE V(c, "ok", <<>>)
+
+\* writer level: the queue of RuleFlavours_MC through the real writer - every statement names the flavour the
+\* rule book gives it, every named flavour is declared, response-file variables sit exactly on the `_RSP` ones
+JudgeRspWriter(c) ==
+    LET I == c.intended
+        M == c.M
+        ra == Rng(I.rspable)
+    IN IF ~c.configured THEN V(c, "WriterRejectedQueue", <<>>)
+       ELSE IF M.errors # <<>> THEN V(c, "Lexical", M.errors)
+       ELSE IF Len(M.edges) # Len(I.stmts) THEN V(c, "WriterChangedGraph", <<>>)
+       ELSE IF ~RulesDefined(M)
+            THEN V(c, "RulesDefined", Some({M.edges[e].rule : e \in UndefinedRuleEdges(M)}) \o M.dup_rules)
+       ELSE IF ~RspBound(M) THEN V(c, "RspBound", Some({M.edges[e].rule : e \in HalfBoundRspEdges(M)}))
+       ELSE IF ~RspUsed(M) THEN V(c, "RspUsed", Some({M.edges[e].rule : e \in UnusedRspEdges(M)}))
+       ELSE IF \E e \in DOMAIN I.stmts : M.edges[e].rule # StmtRule(I.stmts[e], ra, I.T)
+            THEN V(c, "StatementFlavour", Some({M.edges[e].rule : e \in {x \in DOMAIN I.stmts : M.edges[x].rule # StmtRule(I.stmts[x], ra, I.T)}}))
+       ELSE IF UncapableRspEdges(M, ra) # {} THEN V(c, "UncapableRsp", Some({M.edges[e].rule : e \in UncapableRspEdges(M, ra)}))
+       ELSE IF MixedIn(M) # MixedKinds(I.stmts, ra, I.T) THEN V(c, "MixedKinds", Some(MixedIn(M)))
+       ELSE IF ~FlavoursAgree(M) THEN V(c, "FlavoursAgree", Some(DisagreeingKinds(M)))
+       ELSE JudgeFlavours(c, M)
 
 JudgeReach(c, M) ==
     LET p == c.p
@@ -71,6 +133,7 @@ JudgeWriter(c) ==
 
 Judge(c) ==
     IF c.kind = "writer" THEN JudgeWriter(c)
+    ELSE IF c.kind = "rspwriter" THEN JudgeRspWriter(c)
     ELSE IF c.kind = "proj" /\ Collides(c.p) /\ c.configured
          THEN V(c, "CollisionAccepted",
                 Some(UNION {OutPaths(c.p, c.p.targets[pr[1]]) \cap OutPaths(c.p, c.p.targets[pr[2]]) : pr \in CollidingPairs(c.p)}
@@ -78,7 +141,9 @@ Judge(c) ==
     ELSE IF c.kind = "proj" /\ ~MayReject(c.p) /\ ~c.configured THEN V(c, "SpuriousReject", <<>>)
     ELSE IF ~c.configured THEN V(c, "ok", <<>>)
     ELSE LET v == JudgeManifest(c, c.M, Rng(c.exists))
-         IN IF v.clause # "ok" THEN v ELSE JudgeReach(c, c.M)
+             w == IF v.clause # "ok" THEN v ELSE JudgeFlavours(c, c.M)
+             x == IF w.clause # "ok" THEN w ELSE JudgeParts(c, c.M)
+         IN IF x.clause # "ok" THEN x ELSE JudgeReach(c, c.M)
 
 Init == i \in 1..Len(Cases) /\ done = FALSE
 Next == /\ ~done
